@@ -119,7 +119,7 @@ func (w *FrameWorld) start() {
 	w.Net.SetName(akey(a.IP, a.Port), "wr")
 	w.Net.SetName(akey(b.IP, b.Port), "rd")
 	w.wr, w.rd = w.Net.newConnPair("writer", "reader", a, b)
-	w.wr.Scripted = true
+	w.wr.SetScripted(nil, nil)
 	if w.P.Flavor == "bindreply" {
 		w.startBind()
 		return
